@@ -11,12 +11,14 @@ import ast, json, os, sys
 sys.path.insert(0, os.path.dirname(os.path.dirname(os.path.abspath(__file__))))
 from sa.index import Index, pick_def
 from sa.models import Models
-from rules.common import func_decl, model_decl, module_constants
+from rules.common import class_decl, func_decl, model_decl, module_constants, package_exports
+from sa.sym import Summaries
 
 root = sys.argv[1] if len(sys.argv) > 1 else "/repo"
 ix = Index(root)
 ms = Models(ix)
-out = {"functions": {}, "models": {}, "constants": {}}
+sm = Summaries(ix)
+out = {"functions": {}, "models": {}, "constants": {}, "classes": {}, "exports": package_exports(ix)}
 for m in ix.modules.values():
     for name, defs in m.defs.items():
         fns = [d for d in defs if isinstance(d, ast.FunctionDef)]
@@ -26,8 +28,9 @@ for m in ix.modules.values():
     for ci in m.classes.values():
         for mn, fns in ci.methods.items():
             out["functions"][f"{m.name}:{ci.name}.{mn}"] = func_decl(ix, m, pick_def(fns), ci)
+        out["classes"][ci.qual] = class_decl(ci)
         if ms.is_model(ci):
-            out["models"][ci.qual] = model_decl(ix, ms, ci)
+            out["models"][ci.qual] = model_decl(ix, ms, ci, sm)
 dst = os.path.join(os.path.dirname(os.path.dirname(os.path.abspath(__file__))), "sa", "pinned_decls.json")
 json.dump(out, open(dst, "w"), indent=0, sort_keys=True)
-print(len(out["functions"]), "functions,", len(out["models"]), "models,", len(out["constants"]), "constants ->", dst)
+print(len(out["classes"]), "classes,", sum(len(v) for v in out["exports"].values()), "exports,", len(out["functions"]), "functions,", len(out["models"]), "models,", len(out["constants"]), "constants ->", dst)
